@@ -139,13 +139,17 @@ def _scan_facts(p):
             if scan is None or lp.lineno < scan.lineno:
                 scan = lp
     if scan is None:
-        raise AnalysisError("no title-scanning loop found in reader.find_sections_in_file")
+        return fi, fparam, None
     return fi, fparam, scan
 
 
 def rule_scan(ctx):
     p = ctx.p
     fi, fparam, scan = _scan_facts(p)
+    if scan is None:
+        ctx.undecided("SEC.SCAN", fi.qual + "#scan", fi, fi.node, "no loop with a startswith('~') title test in find_sections_in_file "
+                      "(SEC.TITLE-PRED reports a different title predicate)")
+        return
     cfg = build_cfg(p, fi)
     cd = ControlDependence(cfg)
     site = fi.qual
@@ -165,6 +169,10 @@ def rule_scan(ctx):
             if not (isinstance(sub.func.value, ast.Name) and sub.func.value.id == fparam):
                 continue
             n_read += 1
+            if sub.args or sub.keywords:
+                ctx.bad("SEC.SCAN", "%s#read:%d:whole-line" % (site, n_read), fi, sub, "`%s` reads at most a given number of characters: a "
+                        "longer physical line is counted as several lines, and every later section gets line numbers the fast engine "
+                        "(which counts physical lines) does not agree with" % unparse(sub))
             par = getattr(sub, "_parent", None)
             ok = (isinstance(par, ast.Assign) and len(par.targets) == 1 and isinstance(par.targets[0], ast.Name) and par.targets[0].id == linevar) or (
                 isinstance(par, ast.NamedExpr) and isinstance(par.target, ast.Name) and par.target.id == linevar)
@@ -265,6 +273,9 @@ def rule_convention(ctx):
     p = ctx.p
     fi, fparam, scan = _scan_facts(p)
     site = fi.qual
+    if scan is None:
+        ctx.undecided("SEC.CONVENTION", site + "#producer", fi, fi.node, "no title scan loop recognised in find_sections_in_file")
+        return
     # producer: ends.append(<counter + c>) inside the loop (boundary = title in hand, index = counter) and after it
     # (boundary = EOF, index = counter after the last increment)
     starts_app = None
@@ -677,14 +688,25 @@ def _mentions(v, tv, derived, depth=0):
 def _title_derived(fi, tv):
     """single-definition locals whose value depends only on the title variable / constants (transitively)"""
     defs = _single_defs(fi)
+    # containers that are updated after their definition do not keep their initial (literal) value
+    mutated = set()
+    for sub in walk_shallow(fi.node):
+        if isinstance(sub, (ast.Assign, ast.AugAssign, ast.Delete)):
+            for t in (sub.targets if isinstance(sub, (ast.Assign, ast.Delete)) else [sub.target]):
+                if isinstance(t, (ast.Subscript, ast.Attribute)) and isinstance(t.value, ast.Name):
+                    mutated.add(t.value.id)
+        elif isinstance(sub, ast.Call) and isinstance(sub.func, ast.Attribute) and isinstance(sub.func.value, ast.Name) \
+                and sub.func.attr in ("append", "extend", "insert", "update", "setdefault", "pop", "remove", "clear", "add", "discard"):
+            mutated.add(sub.func.value.id)
     good = {}
     changed = True
     while changed:
         changed = False
         for k, v in defs.items():
-            if k in good or k == tv:
+            if k in good or k == tv or k in mutated:
                 continue
-            free = {n.id for n in ast.walk(v) if isinstance(n, ast.Name)} - {"re", "len", "str", "any", "all", "dict", "tuple", "set"}
+            bound = {n.id for c in ast.walk(v) if isinstance(c, ast.comprehension) for n in ast.walk(c.target) if isinstance(n, ast.Name)}
+            free = {n.id for n in ast.walk(v) if isinstance(n, ast.Name)} - {"re", "len", "str", "any", "all", "dict", "tuple", "set"} - bound
             pure_const = not free and isinstance(v, (ast.Constant, ast.Tuple, ast.List, ast.Set, ast.Dict))
             if (free and free <= ({tv} | set(good))) or pure_const:
                 good[k] = v
@@ -853,8 +875,12 @@ def rule_steer(ctx):
                         if free & ({tv} | tder) and free <= ({tv} | set(derived)):
                             tests.append((t, pol))
         enabled = set()
+        partial = {}
         for L in LETTERS + "TX":
-            for title in ("~" + L, "~" + L.lower(), "~" + L + "ersion", "~" + L.lower() + " section"):
+            votes = []
+            spellings = ("~" + L, "~" + L.lower(), "~" + L + "ersion", "~" + L.lower() + " section", "~" + L + "ELL_INFORMATION",
+                         "~" + L.lower() + "ell_info block", "~" + L + "1", "~" + L + " - x")
+            for title in spellings:
                 ok = True
                 for t, pol in tests:
                     try:
@@ -863,10 +889,17 @@ def rule_steer(ctx):
                         raise AnalysisError("SEC.STEER: cannot fold `%s`: %s" % (unparse(t), e))
                     if v != pol:
                         ok = False
-                if ok:
-                    enabled.add(L)
+                votes.append(ok)
+            if any(votes):
+                enabled.add(L)
+            if any(votes) and not all(votes):
+                partial[L] = [sp for sp, v in zip(spellings, votes) if not v]
         want = {STEER_EXPECT[mn]}
-        if enabled == want:
+        if enabled == want and partial.get(STEER_EXPECT[mn]):
+            ctx.bad("SEC.STEER", site, fr, st, "%s is not picked up from every spelling of a ~%s title (not from %s): the section is still "
+                    "filed as ~%s, but its %s no longer steers the parse" % (mn, STEER_EXPECT[mn], partial[STEER_EXPECT[mn]][:3],
+                                                                             STEER_EXPECT[mn], mn))
+        elif enabled == want:
             ctx.ok("SEC.STEER", site, fr, st, "%s is taken only from sections whose title letter is %s (either case)" % (mn, STEER_EXPECT[mn]))
         else:
             extra = sorted(enabled - want)
@@ -905,6 +938,31 @@ def rule_title_pred(ctx):
                               "title test is startswith('~') on a stripped line, like the section scanner's",
                               "`%s` tests the unstripped line: an indented title is recognised by the scanner but not "
                               "here, so the title is swallowed into the section and its last line is lost" % unparse(c))
+    # every site decides "is this a title line" the same way: startswith('~').  A site that tests titles differently (a regular
+    # expression, a character class after the '~') recognises a different set of lines than the readers stop on
+    for q in ("reader.find_sections_in_file", "reader.parse_header_items_section"):
+        fi = p.func(q)
+        has_sw = any(isinstance(c, ast.Call) and isinstance(c.func, ast.Attribute) and c.func.attr == "startswith" and c.args
+                     and isinstance(c.args[0], ast.Constant) and c.args[0].value == "~" for c in walk_shallow(fi.node))
+        other = []
+        for sub in walk_shallow(fi.node):
+            if isinstance(sub, (ast.If, ast.While, ast.IfExp)):
+                for c in ast.walk(sub.test):
+                    if isinstance(c, ast.Call) and isinstance(c.func, ast.Attribute) and c.func.attr in ("match", "search", "fullmatch", "findall"):
+                        txt = ast.unparse(c)
+                        if "~" in txt or "TITLE" in txt.upper() or "SECTION" in txt.upper():
+                            other.append(c)
+                    if isinstance(c, ast.Compare) and any(isinstance(k, ast.Constant) and k.value == "~" for k in [c.left] + c.comparators) \
+                            and not (len(c.ops) == 1 and isinstance(c.ops[0], ast.Eq) and isinstance(c.left, ast.Subscript)
+                                     and ast.unparse(c.left.slice) in ("0", ":1")):
+                        other.append(c)
+        if not has_sw or other:
+            ctx.bad("SEC.TITLE-PRED", q + "#title-predicate", fi, (other[0] if other else fi.node),
+                    "%s decides what a section title is with `%s` instead of <stripped line>.startswith('~'): the scanner, the header "
+                    "loop, the free-text loop and the data readers must agree on the set of title lines, or a section is not found "
+                    "while the readers still stop at its title" % (q, unparse(other[0]) if other else "no startswith('~') test"))
+        else:
+            ctx.ok("SEC.TITLE-PRED", q + "#title-predicate", fi, fi.node, "title lines are recognised by startswith('~') only")
     # the title handed to SectionParser must be the stripped title too (the scanner accepts indented titles)
     fi = p.func("reader.parse_header_items_section")
     cfg = build_cfg(p, fi)
@@ -1036,10 +1094,21 @@ def rule_route(ctx):
     derived_r = _title_derived(fr, tv)
     derived_p = _title_derived(sp_init, "title")
     n_eval = 0
-    for L in LETTERS[:4] + "TXO":
+    probes = []
+    for L in LETTERS[:4] + "TX":
         for title in ("~" + L, "~" + L.lower(), "~" + L + "ection info", "~" + L.lower() + "ection info"):
-            if L == "O":
-                continue
+            probes.append((title, {"las3_section": False, "provisional_version": 2.0, "section_type": "Header items"},
+                           {"version": 2.0, "is_like_las3_section": False}))
+    # LAS-3 style titles under every version: whether a title counts as a LAS 3 section is folded from the code itself
+    # (titles that begin with ~C/~P and contain '_' are custom sections by design, and a title containing '_Data' is a LAS 3 data
+    # section, not a header-items section: neither is probed)
+    for L in "VWT":
+        for rest in ("ELL_DATA", "ELL_PARAMETER", "_definition", "_Information"):
+            for version in (1.2, 2.0, 3.0):
+                for title in ("~" + L + rest, "~" + L.lower() + rest.lower()):
+                    probes.append((title, {"provisional_version": version, "section_type": "Header items"}, {"version": version}))
+    for (title, extra_r, extra_p) in probes:
+        for _once in (1,):
             def pick(cands, tvar, extra):
                 hits = []
                 for keyexpr, tests, *rest in cands:
@@ -1049,11 +1118,18 @@ def rule_route(ctx):
                         dd = derived_r if tvar == tv else derived_p
                         relevant = {tvar} | {k for k, v_ in dd.items() if _mentions(v_, tvar, dd)} | set(extra)
                         if not (free & relevant):
+                            if _assume(t, pol) is not None:
+                                # a version / LAS-3 test written over names the table does not know: approximate, and remember it
+                                assumed[0] = True
+                                if _assume(t, pol) != pol:
+                                    ok_ = False
+                                    break
                             continue      # a test about something else (LiDAR signature, ignore_data ...): not part of the routing
                         try:
                             v = bool(_fold_title(t, tvar, title, extra, defs=dd))
                         except NotConst:
                             # tests not about the title (section_type == ..., version == 3.0 ...): assume the header-items, non-LAS3 case
+                            assumed[0] = True
                             v = _assume(t, pol)
                             if v is None:
                                 ok_ = None
@@ -1066,13 +1142,17 @@ def rule_route(ctx):
                     if ok_:
                         hits.append(keyexpr)
                 return hits
-            rk = pick(routes, tv, {"las3_section": False, "provisional_version": 2.0, "section_type": "Header items"})
-            pk = pick(kinds, "title", {"version": 2.0, "is_like_las3_section": False})
+            assumed = [False]
+            rk = pick(routes, tv, extra_r)
+            pk = pick(kinds, "title", extra_p)
             if rk is None or pk is None:
                 continue
+            if assumed[0] and (len(rk) != 1 or len(pk) != 1 or "las3_section" not in extra_r):
+                continue      # a test could not be folded for this probe and had to be approximated: no verdict from it
             n_eval += 1
             if len(rk) != 1 or len(pk) != 1:
-                problems.append("title %r: %d routing stores and %d parser kinds are selected" % (title, len(rk or []), len(pk or [])))
+                problems.append("title %r (version %s): %d routing stores and %d parser kinds are selected" % (
+                    title, extra_p.get("version"), len(rk or []), len(pk or [])))
                 continue
             try:
                 key = _fold_title(rk[0], tv, title, defs=derived_r)
@@ -1082,7 +1162,8 @@ def rule_route(ctx):
             std = {"Curves", "Parameter", "Well", "Version"}
             if kind in std:
                 if key != kind:
-                    problems.append("a section titled %r is parsed as %s but stored under sections[%r]" % (title, kind, key))
+                    problems.append("a section titled %r (version %s) is parsed as %s but stored under sections[%r]" % (
+                        title, extra_p.get("version"), kind, key))
             else:
                 if key in std or key != title[1:]:
                     problems.append("a custom section titled %r is stored under sections[%r] instead of its own title" % (title, key))
@@ -1485,3 +1566,38 @@ def rule_content_only_effects(ctx):
                   "all %d per-line effects of the %s loop happen only for lines that are neither blank nor comments" % (n_eff, role),
                   "; ".join(dict.fromkeys(problems)))
     ctx.floor("LINE.EFFECTS", 2)
+
+
+def rule_every_section(ctx):
+    """SEC.EVERY-SECTION: every (pos, first, last, title) entry found by the scan is routed: no `continue`/`break` in the
+    section loop of read() that depends on the section's line numbers (an empty section is still a section: it must appear
+    under its title, and an empty ~Well must not keep the pre-filled defaults silently)"""
+    p = ctx.p
+    fr = host_sections(p)
+    sp = _section_tuple_names(fr)
+    loop = sp["loop"]
+    cfg = build_cfg(p, fr)
+    cd = ControlDependence(cfg)
+    lines = {sp["first"], sp["last"], sp["pos"]}
+    site = READ + "#every-section"
+    problems = []
+    for node in cfg.nodes:
+        a = node.ast
+        if node.kind != "stmt" or not isinstance(a, (ast.Continue, ast.Break)) or not in_block(a, loop.body):
+            continue
+        if enclosing(a, (ast.For, ast.While)) is not loop:
+            continue
+        for (tn, lab) in cd.transitive(node.id):
+            t = cfg.nodes[tn].ast
+            if cfg.nodes[tn].kind == "test" and t is not None and in_block(t, loop.body):
+                used = {x.id for x in ast.walk(t) if isinstance(x, ast.Name)} & lines
+                if used:
+                    problems.append((a, "`%s` under `%s` skips a section depending on its line numbers (%s): the section never reaches "
+                                        "the routing, so it is missing from the result (or keeps default items that are not in the file)"
+                                     % (type(a).__name__.lower(), unparse(t), sorted(used))))
+    if problems:
+        for nd, msg in problems:
+            ctx.bad("SEC.EVERY-SECTION", site, fr, nd, msg)
+    else:
+        ctx.ok("SEC.EVERY-SECTION", site, fr, loop, "no section found by the scan is skipped on account of its position or length")
+    ctx.floor("SEC.EVERY-SECTION", 1)
